@@ -43,10 +43,12 @@ VARIABLES cell,          \* the endpoint's nonce cell (endpoint.nonce)
           pollUrl,       \* its URL
           nreq,          \* logical requests so far (bound)
           acctKey,       \* CA account table: account id -> key on record
+          retryDue,      \* the last answer was a recoverable error below the bound: the request has to be sent again
+          caller,        \* who made the current logical request (a certificate; "none" in the model)
           bad            \* labels of the property guards violated by the last step
 
 vars == <<cell, issued, consumed, phase, tries, content, wire, answer, newest,
-          sentNonces, polls, pollUrl, nreq, acctKey, bad>>
+          sentNonces, polls, pollUrl, nreq, acctKey, retryDue, caller, bad>>
 
 NoNonce == "none"
 NoContent == "none"
@@ -68,7 +70,7 @@ LabelsC04 == {"C04_Fresh", "C04_Url", "C04_Flattened", "C04_AlgMatchesKey",
               "C04_KeyChangeInner", "C04_Eab"}
 LabelsC08 == {"C08_AtMost10", "C08_RetryOnlyRecoverable", "C08_SameContent",
               "C08_NewestNonce", "C08_NoSuccessOnError", "C08_NoProblemDocFails",
-              "C08_PollAtMost20", "C08_ClassifyRecoverable"}
+              "C08_PollAtMost20", "C08_ClassifyRecoverable", "C08_RetriesRecoverable"}
 Labels == LabelsC04 \cup LabelsC08
 
 (* A property guard: contributes its label to `bad' when F is false.  The   *)
@@ -83,37 +85,50 @@ InitWith(table) ==
     /\ phase = "idle" /\ tries = 0 /\ content = NoContent
     /\ wire = NoNonce /\ answer = NoAnswer /\ newest = NoNonce
     /\ sentNonces = {} /\ polls = 0 /\ pollUrl = "none" /\ nreq = 0
-    /\ acctKey = table /\ bad = {}
+    /\ acctKey = table /\ retryDue = FALSE /\ caller = "none" /\ bad = {}
 
 Init == InitWith("a" :> "k")
 
 -----------------------------------------------------------------------------
 (* http::post entry.  isPoll: the call is made by pool_object! (it is        *)
 (* preceded by the 5 s polling pause); url identifies the polled object.     *)
-Begin(isPoll, url) ==
+(* A new call while the previous one still owed a retransmission: the retry was dropped. *)
+BeginAs(isPoll, url, who) ==
     /\ phase' = IF cell = NoNonce THEN "fetch" ELSE "loop"
+    /\ retryDue' = FALSE /\ caller' = who
     /\ tries' = 0 /\ content' = NoContent /\ sentNonces' = {}
     /\ wire' = NoNonce /\ answer' = NoAnswer
     /\ nreq' = nreq + 1
     /\ IF isPoll
        THEN /\ bad' = Chk("C08_PollAtMost20", url = pollUrl => polls < MaxPolls)
+                     \cup Chk("C08_RetriesRecoverable", ~retryDue)
             /\ polls' = IF url = pollUrl THEN polls + 1 ELSE 1
             /\ pollUrl' = url
-       ELSE polls' = 0 /\ pollUrl' = "none" /\ bad' = {}
+       ELSE polls' = 0 /\ pollUrl' = "none" /\ bad' = Chk("C08_RetriesRecoverable", ~retryDue)
     /\ Keep(<<cell, issued, consumed, newest, acctKey>>)
+Begin(isPoll, url) == BeginAs(isPoll, url, "none")
+
+(* The caller's renewal attempt is over (request_certificate returned): whatever call it *)
+(* was in has returned too.                                                                *)
+AttemptOver(who) ==
+    /\ bad' = Chk("C08_RetriesRecoverable", ~(retryDue /\ caller = who))
+    /\ retryDue' = IF caller = who THEN FALSE ELSE retryDue
+    /\ Keep(<<cell, issued, consumed, phase, tries, content, wire, answer, newest, sentNonces,
+              polls, pollUrl, nreq, acctKey, caller>>)
 
 (* A GET (directory, newNonce) reaches the CA; n is the Replay-Nonce of the  *)
 (* answer, NoNonce when there is none or the answer is lost.                  *)
 CaGet(n) ==
     /\ issued' = IF n = NoNonce THEN issued ELSE issued \cup {n}
+    /\ retryDue' = IF n = NoNonce THEN FALSE ELSE retryDue    \* a nonce fetch that fails ends the call (`?')
     /\ Keep(<<cell, consumed, phase, tries, content, wire, answer, newest, sentNonces,
-              polls, pollUrl, nreq, acctKey>>) /\ bad' = {}
+              polls, pollUrl, nreq, acctKey, caller>>) /\ bad' = {}
 
 (* update_nonce: the client stores the Replay-Nonce of an answer.             *)
 SetNonce(n) ==
     /\ cell' = n /\ newest' = n
     /\ Keep(<<issued, consumed, phase, tries, content, wire, answer, sentNonces, polls,
-              pollUrl, nreq, acctKey>>) /\ bad' = {}
+              pollUrl, nreq, acctKey, retryDue, caller>>) /\ bad' = {}
 
 (* One transmission (loop body up to `send()`).  usedNonce: what the code put *)
 (* in the protected header; cellAfter: the cell once the request is built.    *)
@@ -129,8 +144,8 @@ Send(usedNonce, cellAfter) ==
     /\ tries' = tries + 1
     /\ cell' = cellAfter
     /\ phase' = "sent"
-    /\ answer' = NoAnswer
-    /\ Keep(<<issued, consumed, content, newest, polls, pollUrl, nreq, acctKey>>)
+    /\ answer' = NoAnswer /\ retryDue' = FALSE
+    /\ Keep(<<issued, consumed, content, newest, polls, pollUrl, nreq, acctKey, caller>>)
 
 (* The CA receives a POST.  j: what the CA's own JWS verification found       *)
 (*   [nonce, url_ok, flattened, alg_ok, has_jwk, has_kid, kid_acct, signer,   *)
@@ -164,28 +179,28 @@ CaHandle(j, kind, type, n, upd) ==
     /\ acctKey' = IF upd.op \in {"create", "rekey"}
                   THEN (upd.acct :> upd.key) @@ acctKey
                   ELSE acctKey
-    /\ Keep(<<cell, tries, wire, newest, sentNonces, polls, pollUrl, nreq>>)
+    /\ Keep(<<cell, tries, wire, newest, sentNonces, polls, pollUrl, nreq, retryDue, caller>>)
 
 (* The transmission never reaches the CA: `send().await?' returns at once.    *)
 Lose ==
     /\ answer' = [kind |-> "lost", type |-> "none", nonce |-> NoNonce]
     /\ phase' = "answered"
     /\ Keep(<<cell, issued, consumed, tries, content, wire, newest, sentNonces, polls,
-              pollUrl, nreq, acctKey>>) /\ bad' = {}
+              pollUrl, nreq, acctKey, retryDue, caller>>) /\ bad' = {}
 
 (* The CA loses an account (outside any request).  The key it held stays in   *)
 (* the table: requests that still name the account are judged against it.      *)
 CaForget(a) ==
     /\ acctKey' = acctKey
     /\ Keep(<<cell, issued, consumed, phase, tries, content, wire, answer, newest,
-              sentNonces, polls, pollUrl, nreq>>) /\ bad' = {}
+              sentNonces, polls, pollUrl, nreq, retryDue, caller>>) /\ bad' = {}
 
 (* check_status is Ok: the call returns the response.                         *)
 ClientOk ==
     /\ bad' = Chk("C08_NoSuccessOnError", answer.kind = "ok")
     /\ phase' = "ok"
     /\ Keep(<<cell, issued, consumed, tries, content, wire, answer, newest, sentNonces,
-              polls, pollUrl, nreq, acctKey>>)
+              polls, pollUrl, nreq, acctKey, retryDue, caller>>)
 
 (* Non-2xx with a problem document of type `type'; recov: the code's own      *)
 (* classification.  Recoverable: sleep a second and loop; otherwise return.   *)
@@ -195,22 +210,23 @@ ClientErr(type, recov) ==
          \cup Chk("C08_ClassifyRecoverable", recov = (type \in Recoverable))
     /\ phase' = IF recov THEN "answered" ELSE "failed"
     /\ answer' = [answer EXCEPT !.kind = "error", !.type = type]
+    /\ retryDue' = (type \in Recoverable /\ tries < MaxTries)
     /\ Keep(<<cell, issued, consumed, tries, content, wire, newest, sentNonces, polls,
-              pollUrl, nreq, acctKey>>)
+              pollUrl, nreq, acctKey, caller>>)
 
 (* The loop ran out: "too much errors, will not retry".                       *)
 GiveUp ==
     /\ bad' = Chk("C08_AtMost10", tries >= MaxTries)
-    /\ phase' = "failed"
+    /\ phase' = "failed" /\ retryDue' = FALSE
     /\ Keep(<<cell, issued, consumed, tries, content, wire, answer, newest, sentNonces,
-              polls, pollUrl, nreq, acctKey>>)
+              polls, pollUrl, nreq, acctKey, caller>>)
 
 (* Any other way out of http::post (`?' on a lost connection, an invalid      *)
 (* Replay-Nonce header, a body that is not a problem document).               *)
 Fail ==
     /\ phase' = "failed"
     /\ Keep(<<cell, issued, consumed, tries, content, wire, answer, newest, sentNonces,
-              polls, pollUrl, nreq, acctKey>>) /\ bad' = {}
+              polls, pollUrl, nreq, acctKey, retryDue, caller>>) /\ bad' = {}
 
 -----------------------------------------------------------------------------
 (* Model checking: the client as the code implements it (with Deviations)     *)
@@ -236,10 +252,11 @@ MCFetch ==
          IF n # NoNonce
          THEN /\ issued' = issued \cup {n} /\ cell' = n /\ newest' = n /\ phase' = "loop"
               /\ Keep(<<consumed, tries, content, wire, answer, sentNonces, polls, pollUrl,
-                        nreq, acctKey>>) /\ bad' = {}
+                        nreq, acctKey, retryDue, caller>>) /\ bad' = {}
          ELSE /\ phase' = IF "SendWithoutNonce" \in Deviations THEN "loop" ELSE "failed"
+              /\ retryDue' = IF "SendWithoutNonce" \in Deviations THEN retryDue ELSE FALSE
               /\ Keep(<<cell, issued, consumed, tries, content, wire, answer, newest,
-                        sentNonces, polls, pollUrl, nreq, acctKey>>) /\ bad' = {}
+                        sentNonces, polls, pollUrl, nreq, acctKey, caller>>) /\ bad' = {}
 
 CellAfterUse == IF "NonceNotCleared" \in Deviations THEN cell ELSE NoNonce
 
@@ -247,11 +264,13 @@ MCSend ==
     \/ /\ phase = "loop" /\ tries = 0
        /\ Send(cell, CellAfterUse)
     \/ /\ phase = "answered" /\ answer.kind = "error" /\ answer.type \in Recoverable
-       /\ tries < MaxTries /\ tries > 0
+       /\ tries < MaxTries /\ tries > 0 /\ retryDue
        /\ IF cell = NoNonce /\ "SendWithoutNonce" \notin Deviations
-          THEN /\ phase' = "fetch"     \* ideal client: no nonce, fetch one first
+          THEN /\ phase' = IF "NoRefetchOnRetry" \in Deviations
+                           THEN "failed"    \* the nonce test hoisted out of the loop: "no anti-replay nonce", call abandoned
+                           ELSE "fetch"     \* no nonce came with the error: fetch one first
                /\ Keep(<<cell, issued, consumed, tries, content, wire, answer, newest,
-                         sentNonces, polls, pollUrl, nreq, acctKey>>) /\ bad' = {}
+                         sentNonces, polls, pollUrl, nreq, acctKey, retryDue, caller>>) /\ bad' = {}
           ELSE Send(cell, CellAfterUse)
     \/ /\ phase = "loop" /\ tries > 0     \* back from the in-loop fetch
        /\ Send(cell, CellAfterUse)
@@ -279,6 +298,8 @@ MCReact ==
                /\ ClientErr(answer.type, FALSE)
             \/ /\ answer.kind = "error" /\ answer.type \in Recoverable /\ tries >= MaxTries
                /\ GiveUp
+            \/ /\ answer.kind = "error" /\ answer.type \in Recoverable /\ tries < MaxTries /\ ~retryDue
+               /\ ClientErr(answer.type, TRUE)
             \/ answer.kind \in {"nonproblem", "drop_after", "lost"} /\ Fail
 
 Next == MCBegin \/ MCFetch \/ MCSend \/ MCCa \/ MCReact
